@@ -70,7 +70,7 @@ CLAIMS.update({
     technique="Coq proof (quiescence lemma + frame; inductive invariant of the worker-pool protocol on the barrier program translated from the source) + cross-executor differential execution (1..16 threads, seeded delays)",
     ref="DESIGN.md §5 C04"),
  "C06": dict(
-    text="Coq theorems: the in-flight counter equals the total number of queued messages over all mailboxes in every reachable state (c06_count_exact_step/run); the verdict is Ok iff all mailboxes are empty, Deadlock l iff l is the non-empty list of observed mailboxes, MessageLoss n iff no observed mailbox holds a message and n is the total (c06_report); observed = exactly the added models, sub-models included, with non-empty mailbox, by qualified name and exact length (c06_observed); refutation witness of the pinned tree (F2) and post-fix example. Tie: deterministic deadlocks (query loop-backs incl. sub-models, self-saturation), orphan mailboxes, hierarchies; exact verdict comparison + accounting oracle, also under seeded delays at the executor's protocol points. Pool protocol (Pool.v): for the barrier program generated from the current mt_executor.rs, every value of msg_count that Executor::run reads at an idle pool equals sent-minus-received over all tasks run so far, for every pool size, interleaving and task behaviour (c06_pool_count_read_is_exact, c06_pool_every_count_read_was_exact); refutation witness for the barrier of the pinned tree (F5).",
+    text="Coq theorems: the in-flight counter equals the total number of queued messages over all mailboxes in every reachable state (c06_count_exact_step/run); the verdict is Ok iff all mailboxes are empty, Deadlock l iff l is the non-empty list of observed mailboxes, MessageLoss n iff no observed mailbox holds a message and n is the total (c06_report); observed = exactly the added models, sub-models included, with non-empty mailbox, by qualified name and exact length (c06_observed); refutation witness of the pinned tree (F2) and post-fix example. Tie: deterministic deadlocks (query loop-backs incl. sub-models, self-saturation), orphan mailboxes, hierarchies; exact verdict comparison + accounting oracle, also under seeded delays at the executor's protocol points. Pool protocol (Pool.v): for the barrier program generated from the current mt_executor.rs, every value of msg_count that Executor::run reads at an idle pool equals sent-minus-received over all tasks run so far, for every pool size, interleaving and task behaviour (c06_pool_count_read_is_exact, c06_pool_every_count_read_was_exact); refutation witness for the barrier of the pinned tree (F5). Nested simulations: the body of the single-threaded executor's run translated from st_executor.rs (T5) restores THREAD_MSG_COUNT and CURRENT_MODEL_ID of an enclosing executor on every path and classifies a panic before unprocessed messages (c06_strun_nested_run_restores_thread_locals; refuted for the pinned body = F6/F7). Per-channel count: c06_chan_count_is_queued.",
     note=SIMNOTE + "The folding of per-thread counters and the idle hand-off are modelled in Pool.v (sequentially consistent; the release/acquire argument for active_workers is in DESIGN, not proved) and exercised on 2..16 threads with seeded delays. Known defects F2 and F5 fixed (commits in known_findings.json).",
     technique="Coq proof (counting invariant + characterisation of classify; inductive invariant of the worker-pool protocol on the barrier program translated from the source) + differential bench correspondence + accounting oracle",
     ref="DESIGN.md §5 C06"),
